@@ -203,7 +203,6 @@ func HarnessL3() {
 	if !ok {
 		return
 	}
-	_ = r
 	zzvrt.Cover("shape:" + cls)
 	zzvrt.Note("shape=" + cls)
 	f := zzMember(d, "x", ps, required, n)
@@ -229,8 +228,32 @@ func HarnessL3() {
 	refArr := zzvrt.Dev{Name: "ref-to-array-definition-unvalidated", Cond: viaRef && ps.kind == "array"}
 	bytesDev := zzvrt.Dev{Name: "length-in-bytes", Cond: zzvrt.And(zzvrt.Not(noBytes), zzvrt.Iff(accepted, f.allBytes()))}
 
+	// Recorded finding: the undeclared members of a struct with typed additionalProperties are
+	// decoded by mapstructure from float64 values: a non-integral number is truncated, not rejected.
+	apTrunc := false
+	if ps.kind == "object-ap" {
+		// stated bound: no member literally named like the Go field that collects the extras
+		zzvrt.Assume(zzvrt.DIs(d, "x/AdditionalProperties", zzvrt.KAbsent))
+		for i := 0; i < zzvrt.Param("E", 1); i++ {
+			ep := "x/+" + string(rune('0'+i))
+			apTrunc = zzvrt.Or(apTrunc, zzvrt.And(zzvrt.DIs(d, ep, zzvrt.KNumber), zzvrt.Not(zzvrt.DIsInt(d, ep))))
+		}
+	}
+	apDev := zzvrt.Dev{Name: "additional-property-number-truncated-to-integer", Cond: apTrunc}
 	zzvrt.Check("C02.L3.valid-accepted", zzvrt.Implies(zzvrt.And(base, f.all()), accepted), fmtDev)
-	zzvrt.Check("C03.L3.wrong-type-rejected", zzvrt.Implies(zzvrt.And(base, f.others("typ")), zzvrt.Iff(accepted, f.typ)), fmtDev)
+	if accepted && zzvrt.Param("MARSHAL", 1) == 1 {
+		// marshalling the decoded value back reproduces every non-empty declared value
+		mb := zzvrt.RMarshalBack(r, d)
+		zzvrt.Check("C02.L3.marshal-back-reproduces-the-input", zzvrt.Implies(nd, mb))
+		if ps.kind == "object-ap" {
+			// exactly the undeclared keys are collected, with their values
+			zzvrt.Check("C02.L3.additional-properties-collected", zzvrt.Implies(zzvrt.And(nd, zzvrt.DIs(d, "x", zzvrt.KObject)), zzvrt.RExtrasCollected(r, "X/AdditionalProperties", d, "x")), apDev)
+		}
+		if len(ps.kind) > 4 && ps.kind[:4] == "enum" {
+			zzvrt.Check("C08.L3.enum-marshals-back-to-the-bare-value", zzvrt.Implies(nd, mb))
+		}
+	}
+	zzvrt.Check("C03.L3.wrong-type-rejected", zzvrt.Implies(zzvrt.And(base, f.others("typ")), zzvrt.Iff(accepted, f.typ)), fmtDev, apDev)
 	zzvrt.Check("C03.L3.null-accepted-where-allowed", zzvrt.Implies(zzvrt.And(nd, zzvrt.And(f.nullObject, f.all())), accepted), nullObj)
 	zzvrt.Check("C04.L3.required", zzvrt.Implies(zzvrt.And(base, f.others("req")), zzvrt.Iff(accepted, f.req)))
 	zzvrt.Check("C05.L3.bounds", zzvrt.Implies(zzvrt.And(base, f.others("num")), zzvrt.Iff(accepted, f.num)), refDev)
